@@ -2,6 +2,7 @@ import TantivyModel.Driver.Proto
 import TantivyModel.Model.Store.Store
 import TantivyModel.Model.Store.Version
 import TantivyModel.Model.Store.VInt32
+import TantivyModel.Model.Store.JsonNumber
 /-!
 Line protocol of the C09 model (doc store). Compression is `none` in every whole-file request
 (the harness feeds lz4/zstd stores block-wise after decompressing with the real codec).
@@ -143,6 +144,17 @@ def handle : List String → String
   | ["vintenc", n] =>
     match n.toNat? with
     | some n => hexOfBytes (vintEnc n)
+    | none => "bad-op"
+  | ["jsonnum", n] =>
+    -- how an integer of a JSON document is typed (canonical prefix of the stored value)
+    match n.toInt? with
+    | some n =>
+      if n < -9223372036854775808 ∨ n > 18446744073709551615 then "F" else
+      match jsonNumber n with
+      | some (.int64 v) => s!"I{(BitVec.ofInt 64 v).toNat}"
+      | some (.uint64 v) => s!"U{v}"
+      | some .float => "F"
+      | none => "panic"
     | none => "bad-op"
   | ["vint32enc", n] =>
     match n.toNat? with
